@@ -640,6 +640,10 @@ class StateWorld(Run):
             self.last_meas = None   # a re-measurement must follow its measurement immediately
         res = getattr(self, "_a_" + op["op"])(op)
         self._check_all(op["op"])
+        if "c05" in self.flags:
+            self.nontrivial = self.nontrivial or bool(self.slots)
+            self.trans.add(hash((op["op"], op.get("ctor"), op.get("fault"), op.get("via"), op.get("record"),
+                                 tuple(sorted(m.rank for m in self.model.values() if m is not None)))) & 0xFFFFFFFFFFFF)
         return res
 
     def _a_new(self, op):
